@@ -90,8 +90,8 @@ type childOut struct {
 func paramsFor(tier string, idx int) mx.GenParams {
 	p := mx.GenParams{MinBatches: 8, MaxBatches: 20, MaxBatch: 40, Branch: 20, Tickets: true, EmptyBatches: true}
 	if tier == "thorough" {
-		p.MaxBatches = 60
-		p.MaxBatch = 150
+		p.MaxBatches = 40
+		p.MaxBatch = 100
 	}
 	switch idx % 4 {
 	case 0:
@@ -519,14 +519,14 @@ func ancestors(h *mx.History, vi int) *mx.History {
 }
 
 func run(c *lib.Ctx) {
-	c.Rule("case = generated history (8-60 batches of 0-150 ordered writes, 20% extending a non-latest version; alphabets incl. ticket keys with closed-ticket values; duplicate keys in a batch; " +
+	c.Rule("case = generated history (8-60 batches of 0-100 ordered writes, 20% extending a non-latest version; alphabets incl. ticket keys with closed-ticket values; duplicate keys in a batch; " +
 		"empty batches on non-empty parents). Every step's root is collected from fresh child processes (6 configurations x {Set, MemSet+Commit}; the variant that runs first in a child rotates with the " +
 		"history index, the others run after the globals were cleared through a hook; thorough: one fresh child per history x configuration) and from long-lived processes (one open store per configuration/shard, " +
 		"both complementary Set/MemSet choices per step, interleaved with competing pending updates, rollbacks, fork commits, unrelated Sets, reads at committed and pending roots) and must equal the " +
 		"fresh plain/Set root and the independent reference root. non-trivial = all variants delivered roots for the history AND the warm runs measured >=1 rollback, >=1 committed competing update and >=1 pending update")
 	c.Assume("sha256 collisions do not occur", "pruning is enabled without ever starting a pruning run (pruneHeight 0); pruning safety is C05",
 		"the reference AVL follows the IAVL split-key convention (inner key = smallest key of the right subtree); its record encoder is hand-written protobuf")
-	n := c.N(32, 600)
+	n := c.N(32, 300)
 	var idxs []int
 	for i := 0; i < n; i++ {
 		if !c.Skip(i) {
